@@ -37,13 +37,16 @@ def shards(tier):
         for fmt in ("raw", "json", "quicklogger"):
             for n in (0, 1, 2, 3, 4):
                 for sub in (0, 1):
-                    out.append({"fmt": fmt, "n": n, "bits": 20 if n <= 2 else 16, "subdiv": sub})
+                    # budget: the number of schedules grows with messages x subdivision points; the deeper combinations get fewer
+                    # contested scheduling decisions (measured: 16 bits with subdivision and >= 3 messages does not finish in 900 s)
+                    bits = 20 if n <= 2 else ((16 if n == 3 else 14) if not sub else 12)
+                    out.append({"fmt": fmt, "n": n, "bits": bits, "subdiv": sub})
             for pz in (0, 1, 2):
                 out.append({"fmt": fmt, "n": 3, "bits": 16, "pause": pz})
             out.append({"fmt": fmt, "n": 3, "bits": 14, "nsets": 2})
             out.append({"fmt": fmt, "n": 2, "bits": 16, "nsets": 2, "subdiv": 1})
             out.append({"fmt": fmt, "n": 2, "bits": 16, "restart": 1})
-            out.append({"fmt": fmt, "n": 3, "bits": 14, "restart": 1, "subdiv": 1})
+            out.append({"fmt": fmt, "n": 2, "bits": 14, "restart": 1, "subdiv": 1})
     return out
 
 
